@@ -29,6 +29,10 @@ def one(ctx, lb, c):
         return
     ctx.count('process_streams')
     ctx.count('process_blocks', len(got))
+    if c.get('feed'):
+        ctx.count('inputs_delivered_in_fragments')
+        if len(c['feed']) > 2:
+            ctx.count('inputs_with_a_producer_pause')
     if len(got) >= 2 or c['fam'] == 'boundary':
         ctx.nt((hashlib.sha1(c['data']).hexdigest(), c['level'], c['ultra']))
         ctx.sample(dict(desc, blocks=got[:3]))
@@ -98,5 +102,14 @@ def run(ctx):
         ctx.extra['exhaustive_distinct_inputs'] = n_exh
     lb = core.build_lbzip2('hook')
     cs = [c for c in streams.compress_cases(ctx, 120 if q else 2000, 40 if q else 500) if not c.get('gen')] + boundary_cases(ctx, 80 if q else 1500)
+    # how the bytes arrive must not move a cut: a seeded share of the inputs comes through a pipe in fragments, some with a
+    # producer that goes quiet for 0.3-0.45 s at an arbitrary offset
+    rf = ctx.rng('delivery')
+    for c in cs:
+        k = rf.random()
+        if k < 0.15:
+            c['feed'] = ([rf.choice([4096, 65536, 99999, 100001])], 0)
+            if k >= 0.05:
+                c['feed'] += ([(rf.random(), rf.choice([0.3, 0.45]))],)
     core.pmap(lambda c: one(ctx, lb, c), cs)
     ctx.assumptions = ['the packing model (native/packmodel.c, codec_h.c:model_block) is the executable reading of the property']
